@@ -13,6 +13,10 @@ KERNEL = [
     "nrel/hive/dispatcher/instruction_generator/dispatcher.py", "nrel/hive/dispatcher/instruction_generator/assignment_ops.py",
     "nrel/hive/model/base.py", "nrel/hive/model/membership.py", "nrel/hive/model/request/request.py", "nrel/hive/model/vehicle/vehicle.py",
     "nrel/hive/model/station", "nrel/hive/model/vehicle/mechatronics/bev.py", "nrel/hive/model/vehicle/mechatronics/ice.py",
+    # the power curve / powertrain objects live in env.mechatronics and are shared by every step: their methods (not their
+    # load-time builders in __init__.py, which merge config dicts) must be store-free outside the constructor
+    "nrel/hive/model/vehicle/mechatronics/powercurve/tabular_powercurve.py", "nrel/hive/model/vehicle/mechatronics/powercurve/powercurve.py",
+    "nrel/hive/model/vehicle/mechatronics/powertrain/tabular_powertrain.py", "nrel/hive/model/vehicle/mechatronics/powertrain/powertrain.py",
     "nrel/hive/model/roadnetwork/route.py", "nrel/hive/model/roadnetwork/routetraversal.py", "nrel/hive/model/roadnetwork/linktraversal.py",
     "nrel/hive/model/roadnetwork/link.py", "nrel/hive/util/dict_ops.py", "nrel/hive/util/tuple_ops.py", "nrel/hive/util/time_helpers.py",
     "nrel/hive/model/sim_time.py", "nrel/hive/reporting/vehicle_event_ops.py", "nrel/hive/reporting/driver_event_ops.py",
@@ -181,7 +185,7 @@ def frame_violations(path, qual, fn):
 
 
 # stateful objects that are *not* part of the simulation state (documented exemptions)
-EXEMPT_CLASSES = {"DictReaderIterator", "ObjectIterator", "DictReaderStepper", "Reporter", "TabularPowercurve", "SimTime"}
+EXEMPT_CLASSES = {"DictReaderIterator", "ObjectIterator", "DictReaderStepper", "Reporter", "SimTime"}
 
 
 def frame_obligations(repo, pid="C16"):
